@@ -415,6 +415,9 @@ func (t *runTracer) probe(point string, g *hermes.GlobalVarsMain, extra ...inter
 			e["irrmm"] = 0
 		}
 		e["rain"] = fx("REGEN", g.REGEN[g.TAG.Index], 6)
+		e["intwick"] = g.INTWICK.Index + 1
+		e["akfNow"] = g.AKF.Index
+		e["saat"] = g.SAAT[g.AKF.Index]
 		e["verdunst"] = lim("VERDUNST", g.VERDUNST, eW)
 		nstate(e, g)
 		t.verdTop = g.VERDUNST
@@ -510,6 +513,7 @@ func (t *runTracer) probe(point string, g *hermes.GlobalVarsMain, extra ...inter
 		e["gehob"], e["wugeh"] = fx("GEHOB", g.GEHOB, 9), fx("WUGEH", g.WUGEH, 9)
 		e["reduk"], e["trrel"] = fx("REDUK", g.REDUK, 9), fx("TRREL", g.TRREL, 9)
 		e["wurz"], e["N"], e["wurzmax"] = g.WURZ, n, g.WURZMAX
+		e["wumaxpf"] = fx("WUMAXPF", g.WUMAXPF, 3)
 		e["dauerkult"], e["legum"] = g.DAUERKULT, g.LEGUM
 		e["DEV"] = ints(g.DEV[:])
 		e["doy"] = g.TAG.Index + 1
